@@ -195,3 +195,47 @@ def dag(u=512, depth=5, fan=24):
         data[base + 8:base + 12] = struct.pack(">I", nxt)
     data[28:32] = struct.pack(">I", len(data) // u)
     return bytes(data)
+
+
+def directed_pointers(data, u):
+    """deterministic pointer corruptions: for every interior b-tree page, its right-most pointer and its
+    first / last child pointer set to {self, root (page 1's trees: the page's tree root), 0, last+1, a sibling leaf},
+    and all child pointers of the page set to itself / to its first child: [(bytes, description)]"""
+    out = []
+    npages = len(data) // u
+    parent, reach = {}, []
+    for n in all_btree_pages(data, u):
+        t, nc, rm, cells = sqlfmt.page_info(data, n, u)
+        reach.append((n, t, 0))
+        if t in (2, 5) and n != 1:
+            pg = sqlfmt.read_page(data, n, u)
+            for c in cells:
+                if c + 4 <= u:
+                    parent[struct.unpack(">I", pg[c:c + 4])[0]] = n
+            parent[rm] = n
+    def root_of(n):
+        seen = set()
+        while parent.get(n, 0) != 0 and n not in seen:
+            seen.add(n); n = parent[n]
+        return n
+    for n, t, par in reach:
+        if t not in (2, 5) or n == 1:
+            continue
+        base = (n - 1) * u
+        _, nc, rm, cells = sqlfmt.page_info(data, n, u)
+        targets = [("self", n), ("tree root", root_of(n)), ("zero", 0), ("beyond", npages + 1), ("first child", struct.unpack(">I", data[base + cells[0]:base + cells[0] + 4])[0] if cells else rm)]
+        for tn, tv in targets:
+            b = bytearray(data); b[base + 8:base + 12] = struct.pack(">I", tv)
+            out.append((bytes(b), "page %d right-most pointer -> %s" % (n, tn)))
+            for which, c in (("first", cells[0] if cells else None), ("last", cells[-1] if cells else None)):
+                if c is not None and c + 4 <= u:
+                    b = bytearray(data); b[base + c:base + c + 4] = struct.pack(">I", tv)
+                    out.append((bytes(b), "page %d %s child pointer -> %s" % (n, which, tn)))
+        for tn, tv in targets[:2] + targets[4:]:
+            b = bytearray(data)
+            for c in cells:
+                if c + 4 <= u:
+                    b[base + c:base + c + 4] = struct.pack(">I", tv)
+            b[base + 8:base + 12] = struct.pack(">I", tv)
+            out.append((bytes(b), "page %d all pointers -> %s" % (n, tn)))
+    return out
